@@ -271,6 +271,65 @@ let rec jsprint_case_gen ?(top = PrintModel.coq_OpAssign) rw sx =
     | PrintModel.TQ -> "?" | PrintModel.TColon -> ":" | PrintModel.TL -> "(" | PrintModel.TR -> ")"
     | PrintModel.TLB -> "[" | PrintModel.TRB -> "]" | PrintModel.TDot -> ".") out)
 
+(* ---- Js statement optimiser (Js/StmtModel.v) ---- *)
+let jsstmt_case fn sx =
+  let toks = ref (Stdlib.List.filter (fun x -> x <> "") (split ' ' sx)) in
+  let next () = match !toks with t :: r -> toks := r; t | [] -> failwith "jsstmt sexpr" in
+  let rec pe () =
+    match next () with
+    | "A" -> PrintModel.EAtom (coq_string (next ()))
+    | "T" -> PrintModel.EConst (match next () with "true" -> PrintModel.CTrue | "false" -> PrintModel.CFalse | "undefined" -> PrintModel.CUndefined | _ -> PrintModel.CInfinity)
+    | "G" -> PrintModel.EGroup (pe ())
+    | "B" -> let op = coq_string (next ()) in let x = pe () in let y = pe () in PrintModel.EBin (op, x, y)
+    | "P" -> let op = coq_string (next ()) in PrintModel.EPre (op, pe ())
+    | "Q" -> let op = coq_string (next ()) in PrintModel.EPost (op, pe ())
+    | "C" -> let c = pe () in let x = pe () in let y = pe () in PrintModel.ECond (c, x, y)
+    | "K" -> let f = pe () in let a = pe () in PrintModel.ECall (f, a)
+    | t -> failwith ("jsstmt expr tag " ^ t) in
+  let rec ps () =
+    match next () with
+    | "E" -> StmtModel.SExpr (pe ())
+    | "F0" -> let c = pe () in let b = ps () in StmtModel.SIf (c, b, None)
+    | "F1" -> let c = pe () in let b = ps () in let e = ps () in StmtModel.SIf (c, b, Some e)
+    | "R0" -> StmtModel.SReturn None
+    | "R1" -> StmtModel.SReturn (Some (pe ()))
+    | "W" -> StmtModel.SThrow (pe ())
+    | "J" -> StmtModel.SBranch (coq_string (next ()))
+    | "N" -> StmtModel.SEmpty
+    | "BL" -> StmtModel.SBlock (pl ())
+    | "O" -> StmtModel.SOpaque (coq_string (next ()))
+    | t -> failwith ("jsstmt stmt tag " ^ t)
+  and pl () = let n = int_of_string (next ()) in Stdlib.List.init n (fun _ -> ()) |> Stdlib.List.map (fun () -> ps ()) in
+  (match next () with "L" -> () | _ -> failwith "jsstmt list");
+  let l = pl () in
+  let out = StmtModel.optimize_body PrintGen.coq_T_gen (fn = "1") l in
+  let b = Buffer.create 256 in
+  let w s = Buffer.add_string b s; Buffer.add_char b ' ' in
+  let rec we = function
+    | PrintModel.EAtom s -> w "A"; w (ocaml_string s)
+    | PrintModel.EConst k -> w "T"; w (match k with PrintModel.CTrue -> "true" | PrintModel.CFalse -> "false" | PrintModel.CUndefined -> "undefined" | PrintModel.CInfinity -> "Infinity")
+    | PrintModel.EGroup x -> w "G"; we x
+    | PrintModel.EBin (op, x, y) -> w "B"; w (ocaml_string op); we x; we y
+    | PrintModel.EPre (op, x) -> w "P"; w (ocaml_string op); we x
+    | PrintModel.EPost (op, x) -> w "Q"; w (ocaml_string op); we x
+    | PrintModel.ECond (c, x, y) -> w "C"; we c; we x; we y
+    | PrintModel.ECall (f, a) -> w "K"; we f; we a
+    | _ -> w "?" in
+  let rec ws = function
+    | StmtModel.SExpr e -> w "E"; we e
+    | StmtModel.SIf (c, bd, None) -> w "F0"; we c; ws bd
+    | StmtModel.SIf (c, bd, Some e) -> w "F1"; we c; ws bd; ws e
+    | StmtModel.SReturn None -> w "R0"
+    | StmtModel.SReturn (Some e) -> w "R1"; we e
+    | StmtModel.SThrow e -> w "W"; we e
+    | StmtModel.SBranch k -> w "J"; w (ocaml_string k)
+    | StmtModel.SEmpty -> w "N"
+    | StmtModel.SBlock l -> wl "BL" l
+    | StmtModel.SOpaque i -> w "O"; w (ocaml_string i)
+  and wl tag l = w tag; w (string_of_int (Stdlib.List.length l)); Stdlib.List.iter ws l in
+  wl "L" out;
+  Stdlib.String.trim (Buffer.contents b)
+
 let register (reg : string -> (string list -> string) -> unit) =
   reg "json_events" (function [k; evs] -> hexe (JsonModel.json_minify_events (k = "1") (parse_events evs))
                             | [k] -> hexe (JsonModel.json_minify_events (k = "1") []) | _ -> "BADARGS");
@@ -312,6 +371,7 @@ let register (reg : string -> (string list -> string) -> unit) =
   reg "pathsep" (function [d] -> pathsep_case d | [] -> pathsep_case "" | _ -> "BADARGS");
   reg "jsprint" (function [sx] -> jsprint_case_gen false sx | _ -> "BADARGS");
   reg "jsrw" (function [sx] -> jsprint_case_gen true sx | _ -> "BADARGS");
+  reg "jsstmt" (function [fn; sx] -> jsstmt_case fn sx | _ -> "BADARGS");
   reg "jsrw0" (function [sx] -> jsprint_case_gen ~top:PrintModel.coq_OpExpr true sx | _ -> "BADARGS");
   reg "cssbox" (function [v] -> Stdlib.String.concat "," (Stdlib.List.map (fun n -> string_of_int (int_of_nat n)) (CssBox.box_collapse_nat (intlist v))) | _ -> "BADARGS");
   reg "tokbuf" (function [t; o] -> tokbuf t o | _ -> "BADARGS");
